@@ -64,15 +64,16 @@ func (c *scriptedCtx) Err() error {
 	}
 	return nil
 }
-func (c *scriptedCtx) Done() <-chan struct{}             { return c.done }
-func (c *scriptedCtx) Deadline() (time.Time, bool)       { return time.Time{}, false }
-func (c *scriptedCtx) Value(key any) any                 { return nil }
+func (c *scriptedCtx) Done() <-chan struct{}       { return c.done }
+func (c *scriptedCtx) Deadline() (time.Time, bool) { return time.Time{}, false }
+func (c *scriptedCtx) Value(key any) any           { return nil }
 
 var c05Entries = []string{"LoadString", "LoadStringContext", "Load", "LoadContext", "LoadProgram", "LoadProgramContext", "Eval", "EvalContext", "EvalSExpr",
 	"FunCall", "FunCallContext", "MacroCall", "SpecialOpCall", "lisp-load-string", "lisp-load-bytes"}
 
 var c05Faults = []string{"none", "none", "error", "type-error", "arity-error", "unbound", "stack-limit", "nesting-limit", "macro-limit", "step-budget", "cancel",
-	"panic-arg", "panic-in-handler", "panic-under-ignore-errors", "panic-in-map", "panic-in-macro", "error-in-handler", "in-package-then-fail", "rethrow-outside", "tail-iter-limit"}
+	"panic-arg", "panic-in-handler", "panic-under-ignore-errors", "panic-in-map", "panic-in-macro", "error-in-handler", "in-package-then-fail", "rethrow-outside", "tail-iter-limit",
+	"empty-source", "cross-package-fail-mid", "cross-package-fail-mid-swallowed", "cross-package-macro-fail-mid"}
 
 // c05Effect returns the k-th effect statement of a step (atomic, followed by a
 // completion probe) and the same statement without probe for the twin.
@@ -131,6 +132,11 @@ func c05FaultForm(kind string, r *fw.RNG) string {
 		return "(load-string \"(in-package 'other-pkg) (set 'leak 1) (error 'inner-failure)\")"
 	case "rethrow-outside":
 		return "(rethrow)"
+	case "cross-package-fail-mid":
+		// a function of ANOTHER package fails in a non-final body form
+		return fw.Pick(r, []string{"(other-pkg:fail-mid 1)", "(other-pkg:fail-mid-deep 2)", "(list 1 (other-pkg:fail-mid 3))"})
+	case "cross-package-macro-fail-mid":
+		return "(other-pkg:mac-fail-mid 1)"
 	}
 	return "()"
 }
@@ -144,9 +150,15 @@ const c05Prelude = `
 (defmacro panic-m (x) (verif:panic))
 (defmacro eff-m (&rest body) (quasiquote (progn (unquote-splicing body))))
 (defun run-thunk (f) (funcall f))
+(in-package 'other-pkg)
+(set 'own 1)
+(defun fail-mid (x) (identity own) (car 5) (set 'own -1) x)
+(defun fail-mid-deep (x) (let ([y x]) (fail-mid y) y) x)
+(defmacro mac-fail-mid (x) (car 5) x)
+(in-package 'user)
 `
 
-const c05ProbeProgram = `(list g1 g2 g3 g4 g5 g6 gm gv (f1 1) (f2 1) (f3 1) (+ 1 2) (let ([x 5]) (labels ((up (n) (if (<= n 0) x (up (- n 1))))) (up 20))))`
+const c05ProbeProgram = `(list other-pkg:own (handler-bind ((condition (lambda (c &rest a) 'none))) other-pkg:g1) g1 g2 g3 g4 g5 g6 gm gv (f1 1) (f2 1) (f3 1) (+ 1 2) (let ([x 5]) (labels ((up (n) (if (<= n 0) x (up (- n 1))))) (up 20))))`
 
 func c05NewRuntime() *rt.R {
 	r := rt.New(rt.Opts{MaxPhys: 300, MaxNest: 600, MaxMacro: 50, MaxTail: 5000})
@@ -194,7 +206,15 @@ func c05Run(w *fw.W, idx int) {
 			twinParts = append(twinParts, t)
 		}
 		faultForm := ""
-		if fault != "none" && fault != "step-budget" && fault != "cancel" {
+		swallowed := false
+		switch fault {
+		case "none", "step-budget", "cancel", "empty-source":
+		case "cross-package-fail-mid-swallowed":
+			// the failure is swallowed in the middle of the evaluation: what follows must
+			// still run in the caller's package
+			swallowed = true
+			faultForm = fw.Pick(r, []string{"(ignore-errors (other-pkg:fail-mid 1))", "(handler-bind ((condition (lambda (c &rest a) 'h))) (other-pkg:fail-mid-deep 1))", "(ignore-errors (other-pkg:mac-fail-mid 1))"})
+		default:
 			faultForm = c05FaultForm(fault, r)
 		}
 		var seq []string
@@ -207,6 +227,11 @@ func c05Run(w *fw.W, idx int) {
 			}
 		}
 		body := strings.Join(seq, "\n")
+		if fault == "empty-source" {
+			// a source with no forms at all (empty, blank or comment only)
+			body = fw.Pick(r, []string{"", "  \n", "; only a comment\n", "\n\n; c\n"})
+			neff, pos, tags, twinParts = 0, 0, nil, nil
+		}
 		posClass := "middle"
 		if pos == 0 {
 			posClass = "first"
@@ -282,7 +307,13 @@ func c05Run(w *fw.W, idx int) {
 			}
 		}
 		lo, hi := fired, neff
-		if faultForm != "" {
+		if swallowed {
+			if tr.IsErr {
+				w.Violation("swallowed-fault-surfaced:"+key, "an error swallowed by ignore-errors / a handler still failed the evaluation: "+tr.Cond+" "+tr.Msg, strings.Join(history, "\n---\n"))
+				return
+			}
+			lo, hi = neff, neff
+		} else if faultForm != "" {
 			if tr.IsErr {
 				lo, hi = pos, pos
 			} else if fault != "panic-under-ignore-errors" && fault != "in-package-then-fail" {
